@@ -173,8 +173,11 @@ impl<'a> Exec<'a> {
         self.stats.steps += 1;
         match op {
             Op::Write { key, ts, meta, vlen, fill } => {
-                let val = value_bytes(idx, *vlen, *fill);
                 let mm = meta_pool(*meta);
+                let val = value_bytes(idx, resolve_vlen(*vlen, self.cfg.keylen, &mm), *fill);
+                if *vlen >= VLEN_REL {
+                    self.labels.insert("threshold_value");
+                }
                 let had_active = self.model.active.is_some();
                 let stored = self.model.write(*key, *ts, val.clone(), mm.clone());
                 if !had_active {
